@@ -4,8 +4,8 @@
      of the radial polygon it is applied to (sine subtraction law);
    - the molecule area is the sum of the disc areas minus the pairwise lens terms (so it is the area of
      the union exactly when no three discs share a point: known finding D7 otherwise).
-   Not proved: that the lens term is the area of a two-disc intersection (needs integration), and
-   score <= 1 (needs planar measure theory); both are monitored on every run. *)
+   The lens term as an integral: LensFacts.v / LensModel.v.  Not proved: score <= 1 (needs planar measure
+   theory); monitored on every run. *)
 From Coq Require Import ZArith List Bool Reals Lra Lia.
 From PV Require Import Num NumR model.Geom proofs.LatticeFacts proofs.OverlapFacts proofs.PackingFacts proofs.LJFacts.
 Import ListNotations.
